@@ -81,7 +81,11 @@ func C16(ctx *core.Ctx) {
 	ctx.Rule("C16.R6", "per-invocation storage: closures that run once per call write only slices they allocate themselves", 1)
 	if cc := LoadCC(ctx); cc.OK() {
 		c16ParentTests(ctx, cc)
+		ctx.Rule("C16.R9", "the arguments a publisher middleware sees are the caller's, in the caller's order: lists the generators build over the scope's prefix variables (signature, forwarded arguments, Invoke literal) are appended to", 8)
+		prefixListOrder(ctx, cc, "C16.R9")
 	}
+	ctx.Rule("C16.R8", "the error a middleware (or the handler) ends the chain with is what the client observes: kind and message go from SendError to the constructed TApplicationException unchanged", 2)
+	errorKindFidelity(ctx, r, "C16.R8")
 
 	// ---- R1 ---------------------------------------------------------------------
 	if am := r.Fn("C16.R1", "(*Method).AddMiddleware"); am != nil {
